@@ -6,6 +6,7 @@ from ..frontend import AnalysisBroken
 from ..report import Report
 from ..vals import FuncCtx
 from ..engines import region
+from ..engines import trace as TR
 from .. import inv
 from . import common, regionrules
 
@@ -80,41 +81,65 @@ def rules(rep, m):
                   "itself from the queue, and if it had already been taken off (grant pending) withdraws the pending "
                   "wake-up and signals the guard again so the grant is passed on", floor=1)
     w = m.need("cmb_resourceguard_wait")
-    wcx = FuncCtx(m, w)
-    ylds = [n for n in walk(w.body) if n["kind"] == "CallExpr" and callee_ref(n) == "cmi_coroutine_yield"]
-    if len(ylds) != 1:
-        raise AnalysisBroken("cmb_resourceguard_wait: expected exactly one yield")
-    yi = inv.stmt_index_containing(w, ylds[0])
-    after = kids(w.body)[yi + 1:]
-    found_cancel = found_handover = found_withdraw = False
-    for s in after:
-        if s["kind"] != "IfStmt":
-            continue
-        c = wcx.canon(kids(s)[0])
-        if "!=" in c and ("NULL" in c or " 0)" in c):      # sig != SUCCESS
-            body = kids(s)[1]
-            for x in walk(body):
-                if x["kind"] == "CallExpr":
-                    nm = callee_ref(x)
-                    if nm in ("cmi_hashheap_cancel", "cmi_hashheap_remove"):
-                        found_cancel = True
-                    if nm == "cmb_resourceguard_signal" and wcx.canon(kids(x)[1]) == w.params[0]["name"]:
-                        found_handover = True
-                    if nm == "cmb_event_pattern_cancel":
-                        found_withdraw = True
-    r3.instance("abnormal exit: dequeue self=%s, withdraw pending wake-up=%s, pass grant on=%s"
-                % (found_cancel, found_withdraw, found_handover))
-    rep.sample({"rule": "R-C08-3", "cancel": found_cancel, "withdraw": found_withdraw, "handover": found_handover})
-    for ok, key, msg in ((found_cancel, "leave:no-dequeue", "a waiter leaving for another reason stays in the waiting list"),
-                         (found_withdraw, "leave:no-withdraw", "a pending grant wake-up is not withdrawn when the waiter "
-                          "leaves for another reason: it later resumes the process out of an unrelated wait"),
-                         (found_handover, "leave:no-handover", "a grant made to a waiter that leaves for another reason in "
-                          "the same instant is not passed on to the next waiter")):
-        if ok:
-            r3.ok()
-        else:
-            rep.finding(r3, w.name, key, msg, where=m.rel(w.where))
+    rg = w.params[0]["name"]
+    paths = {"n": 0}
+
+    def after_resume(dom, flow, st, tr, why, where, ev):
+        if not tr or tr[0][0] != "resume" or not why.startswith("return"):
+            return
+        # classify the path by the branch facts taken after the resume
+        succ = None
+        for e in tr:
+            if e[0] == "assume" and re.fullmatch(r"\(cmi_coroutine_yield\(NULL\) (!=|==) (NULL|0)\)", e[1]):
+                ne = "!=" in e[1]
+                succ = (not e[2]) if ne else e[2]
+        if succ is None:
+            raise AnalysisBroken("cmb_resourceguard_wait: cannot find the test of the resume signal")
+        calls = [e for e in tr if e[0] == "call"]
+        names = [c[1] for c in calls]
+        paths["n"] += 1
+        if succ:
+            return
+        canc = [c for c in calls if c[1] in ("cmi_hashheap_cancel", "cmi_hashheap_remove") and c[2][0] == rg]
+        r3.instance("abnormal exit path: %s" % " ; ".join(TR.fmt(tr, 8)))
+        if not canc:
+            rep.finding(r3, w.name, "leave:no-dequeue", "a waiter leaving for another reason stays in the waiting list",
+                        where=where)
             r3.fail()
+            return
+        r3.ok()
+        # was the process still queued?  (the cancel's result)
+        still = None
+        for e in tr:
+            if e[0] == "assume" and e[1] in (canc[0][5], "!" + canc[0][5]):
+                still = e[2]
+        if still is None:
+            # result ignored: treat as 'maybe not queued', the obligations below apply
+            still = False
+        if still:
+            return
+        withdraw = any(c[1] == "cmb_event_pattern_cancel" and len(c[2]) >= 2 and c[2][1] == "cmb_process_current()"
+                       for c in calls)
+        handover = any(c[1] == "cmb_resourceguard_signal" and c[2][0] == rg for c in calls)
+        rep.sample({"rule": "R-C08-3", "path": TR.fmt(tr, 10), "withdraw": withdraw, "handover": handover})
+        if not withdraw:
+            rep.finding(r3, w.name, "leave:no-withdraw", "on a path where the leaving waiter was no longer queued (grant "
+                        "pending) the pending wake-up is not withdrawn: it later resumes the process out of an unrelated "
+                        "wait", where=where)
+            r3.fail()
+        else:
+            r3.ok()
+        if not handover:
+            rep.finding(r3, w.name, "leave:no-handover", "on a path where the leaving waiter was no longer queued the "
+                        "guard is not signalled again: a grant made to it in the same instant is lost instead of being "
+                        "passed to the next waiter (path: %s)" % " ; ".join(TR.fmt(tr, 6)), where=where)
+            r3.fail()
+        else:
+            r3.ok()
+
+    TR.run_traces(m, w, after_resume)
+    if paths["n"] < 2:
+        raise AnalysisBroken("cmb_resourceguard_wait: fewer than two paths after the resume")
 
     # R-C08-4 ------------------------------------------------------------
     r4 = rep.rule("R-C08-4", "interrupting, stopping or ending a process removes it from every waiting list: the "
@@ -136,6 +161,35 @@ def rules(rep, m):
         r4.fail()
     else:
         r4.ok()
+
+
+    # R-C08-5 ------------------------------------------------------------
+    r5 = rep.rule("R-C08-5", "when a process that may itself be blocked is ended (stop), it is removed from every "
+                  "waiting list and its pending events are cancelled *before* its holdings are dropped: dropping signals "
+                  "the guards, and a grant made to the ending process would be lost", floor=1)
+    for f in m.funcs.values():
+        cx = None
+        ca_ = [c for c in walk(f.body) if c["kind"] == "CallExpr" and callee_ref(c) == "cmi_process_cancel_awaiteds"]
+        dr_ = [c for c in walk(f.body) if c["kind"] == "CallExpr" and callee_ref(c) == "cmi_process_drop_resources"]
+        if not dr_:
+            continue
+        cx = FuncCtx(m, f)
+        for d in dr_:
+            who = cx.canon(kids(d)[1])
+            r5.instance("%s drops the holdings of %s" % (f.name, who))
+            if who == "cmb_process_current()":
+                r5.ok()            # the running process is in no waiting list
+                continue
+            di = inv.stmt_index_containing(f, d)
+            before = [c for c in ca_ if cx.canon(kids(c)[1]) == who and
+                      (inv.stmt_index_containing(f, c) or 0) < (di or 0)]
+            if not before:
+                rep.finding(r5, f.name, "drop-before-unwind", "%s drops the holdings of %s before removing it from its "
+                            "waiting lists: the freed units can be granted to the process that is being ended and are "
+                            "then lost for the next waiter" % (f.name, who), where=m.rel(loc(d)))
+                r5.fail()
+            else:
+                r5.ok()
 
 
 def run(tier="quick"):
